@@ -248,6 +248,15 @@ class C03(Check):
                    "check_for_overlapping_entry, port / desc / queue statistics, features, get-config, barrier, echo): the model treats them as no-ops on the table; WHAT they report "
                    "(the set of entries the non-strict test selects, a count) is a correspondence-only observable — the oracle demands only that the table holds what it held and "
                    "that every later lookup is the standard's",
+                   "frames handed to the table AFTER rewrite actions (packet_out [set_vlan_vid/pcp, strip_vlan, set_dl_*, set_nw_*, set_tp_* ..., output:OFPP_TABLE] with the frame as data or "
+                   "by buffer id; the packet object an upstream switch emitted, received by rx_packet): which frame that is, is read off the bytes that leave the switch afterwards "
+                   "(every entry outputs to a spare port, a miss returns the whole frame in a packet-in) — what the actions are supposed to do to a frame is C12's subject and not presumed; "
+                   "the model is given those bytes (model_request2), the oracle holds the entry used to the standard's reading of them",
+                   "packet objects built by hand with the packet library's classes (never serialised, never parsed) are held to the standard's reading of the bytes they serialise to; only coherent "
+                   "objects are built (type fields name the header objects that follow)",
+                   "left open by OpenFlow 1.0 3.4 and by the property, and therefore removed from BOTH sides of the model comparison: the order of entries of equal effective priority inside the "
+                   "table (compared as a sequence of equal-priority runs, each run a set) and which of several matching entries of one rank a lookup returns (compared as the smallest id among "
+                   "the entries of that rank that match by the standard); the model's own choice (a new entry goes in front of its equals: add_position) is a fact about the model only",
                    "remove_expired_entries is modelled for any expiry predicate (theorems) and with the idle/hard rule on never-touched entries (driver); "
                    "what remove_matching_entries selects is C04's subject, here it is only mirrored"]
     design_ref = "DESIGN.md §5 C03, §6 D22 D26 D29, Appendix D.10"
@@ -264,7 +273,7 @@ class C03(Check):
                   "READING CLAIMED for 'exact match (has no wildcards)': the prerequisite rule — wildcard bits on fields that are ignored for lack of prerequisites do not count "
                   "(Spec.exactSig / IsBestSig; what the reference switch does and the code implements since D26); lookup_spec_wire_literal_current is the literal reading "
                   "(all 22 bits zero), proved for flows that wildcard no ignored field, on which the two readings coincide. "
-                  "Also: the table is sorted after every history, insertion goes in front of equal priorities (table_sorted_current, add_position), non-strict selection is subsumption "
+                  "Also: the table is sorted after every history (table_sorted_current; in the model a new entry goes in front of its equals, add_position — a choice the standard leaves open and the correspondence does not demand of the code), non-strict selection is subsumption "
                   "over all header tuples (subsumes_iff_current), a flow built by from_packet/pack matches its packet and is exact (flow_from_packet_current, flow_from_packet_exact_current). "
                   "Remaining hypotheses: complete frames (regularG false; irregular_l4/l3_witness), 16-bit priorities — nothing about ECN bits, ARP opcodes or wildcarded prerequisite fields. "
                   "The `_v` theorems state all of this for every combination of the repairs; the _full / _repaired / un-suffixed ones concern superseded trees (before C03-K7 / before D36 / "
@@ -284,9 +293,11 @@ class C03(Check):
             "(on a bare FlowTable or on the table of a SoftwareSwitch with a connection; read-only calls between any two steps: OFPST_FLOW / AGGREGATE / TABLE / PORT / DESC / QUEUE requests "
             "from their bytes with the replies read from the wire, flow_stats / aggregate_stats / matching_entries filtered, unfiltered and by out_port, len, iteration, printing, "
             "check_for_overlapping_entry, features / get-config / barrier / echo; on a switch every lookup also through rx_packet) | sequences of lookups on one unchanged table (frames differing in exactly one of the 12 fields or in fragmentation, both orders, A-B-A triples, entries discriminating on that field; each answer also compared with a fresh copy of the table) | "
-            "a packet->from_packet->pack->unpack->lookup round trip | subsumption pairs; corpus = all 1024 flag combinations x prefix counters x at/near values on 9 fixed frames + "
+            "a packet->from_packet->pack->unpack->lookup round trip | subsumption pairs | resubmit: a table on a switch x steps (frame, in_port, list of rewrite actions, handed to the table by "
+            "packet_out data + output:TABLE / by buffer id + output:TABLE / as the packet object an upstream switch emitted / plainly received), entries aimed at the frame before and after the rewrite | "
+            "any of the kinds with the packet OBJECT built by hand instead of parsed (`built`: 13 base frames, SNAP / LLC / foreign-OUI encapsulations, QinQ, fragments, ARP opcodes > 255, random descriptions); corpus = all 1024 flag combinations x prefix counters x at/near values on 9 fixed frames + "
             "prefix sweeps 0..63 + defect witnesses + 8 fixed histories + one sandwich history per read-only call (lookups / the call / lookups / add / remove / strict delete / expiry, "
-            "exact entry with a low priority field in front of high wildcarded ones); non-trivial = a batch with both outcomes / a table or history with a hit / a round trip of a frame with L3 or VLAN")
+            "exact entry with a low priority field in front of high wildcarded ones) + 26 action lists x 11 base frames x {data, buffer, chain, rx} resubmissions + hand-built objects of every header class; non-trivial = a batch with both outcomes / a table or history with a hit / a round trip of a frame with L3 or VLAN")
     coverage_cases = 200
 
     # ---------------------------------------------------------------- real code
@@ -295,11 +306,13 @@ class C03(Check):
         import pox.openflow.libopenflow_01 as of
         from pox.openflow.flow_table import FlowTable, TableEntry
         from pox.datapaths.switch import SoftwareSwitch
+        import pox.datapaths.switch as swmod
+        self.DpPacketOut = swmod.DpPacketOut
         import pox.lib.packet as pkt
         from pox.lib.addresses import IPAddr, EthAddr
         self.of, self.FlowTable, self.TableEntry, self.SoftwareSwitch, self.pkt = of, FlowTable, TableEntry, SoftwareSwitch, pkt
         self.IPAddr, self.EthAddr = IPAddr, EthAddr
-        self._corpus = None; self._byte_frames = None; self._tcpopt_phs = set()
+        self._corpus = None; self._byte_frames = None; self._tcpopt_phs = set(); self._built = {}; self._view_cache = {}; self._resubmit_frames = {}
         self.zero_mac_eq_none = bool(EthAddr(b"\0" * 6) == None)      # noqa: E711 -- the address class's own comparison is what is probed
         self.anchors = self.compute_anchors()
         self.variant = self.detect_variant()
@@ -422,6 +435,12 @@ class C03(Check):
     def parse(self, hexframe):
         return self.pkt.ethernet(bytes.fromhex(hexframe))
 
+    def packet(self, hexframe):
+        """the packet OBJECT handed to the code under test for this frame: parsed from the bytes, or — when the case lists the frame under
+        "built" — put together by hand with the packet library's classes and never serialised (no header of it has `parsed` set, none has `raw`)"""
+        d = self._built.get(hexframe)
+        return self.parse(hexframe) if d is None else self.build_obj(d)
+
     def phdr_of(self, e):
         """header tuple as the packet library parsed it + 'wf' (every header the types promise is there and parsed)"""
         P = self.pkt
@@ -462,11 +481,16 @@ class C03(Check):
         """description of the frame given to model and standard + 'wf': read off the BYTES for complete frames — the packet library's
         idea of the frame is not consulted, so a library that takes the frame for something else is seen to disagree —, the library's
         parse only for incomplete ones (model-vs-code there; the standard is silent on the missing part)"""
+        hit = self._view_cache.get(hexframe)
+        if hit is not None: return hit
         ph, ok = raw_phdr(bytes.fromhex(hexframe))
         if ok:
             if self.tcpopt_drops and self.tcpopt_class(hexframe, ph): self._tcpopt_phs.add(common.canon(ph))
-            return ph, 2
-        return self.phdr_of(self.parse(hexframe))
+            r = (ph, 2)
+        else:
+            r = self.phdr_of(self.parse(hexframe))
+        if len(self._view_cache) < 20000: self._view_cache[hexframe] = r
+        return r
 
     def mview(self, hexframe):
         """the same as sent to the driver: the bytes themselves (hex) for complete frames — `Spec.Frame.parse` reads them there"""
@@ -685,9 +709,15 @@ class C03(Check):
         return None
 
     def impl(self, case):
+        self._built = case.get("built") or {}
+        try: return self._impl(case)
+        finally: self._built = {}
+
+    def _impl(self, case):
         k = case["kind"]
+        if k == "resubmit": return self.impl_resubmit(case)
         if k == "pairs":
-            e = self.parse(case["frame"])
+            e = self.packet(case["frame"])
             ph, wf = self.view(case["frame"])
             if case.get("via_packet_in"):       # from_packet's other entry: an ofp_packet_in carrying the frame
                 pm = self.of.ofp_match.from_packet(self.of.ofp_packet_in(in_port=case["port"], data=bytes.fromhex(case["frame"])), spec_frags=True)
@@ -738,7 +768,7 @@ class C03(Check):
                 twin = []
             lookups, rx, phs, wfs, pk = [], [], [], [], {}
             for n, fr in enumerate(case["frames"]):
-                if fr["frame"] not in pk: pk[fr["frame"]] = self.parse(fr["frame"])
+                if fr["frame"] not in pk: pk[fr["frame"]] = self.packet(fr["frame"])
                 e = pk[fr["frame"]]             # the same packet object again when a frame is looked up again
                 ph, wf = self.view(fr["frame"])
                 phs.append(ph); wfs.append(wf)
@@ -765,7 +795,7 @@ class C03(Check):
                         m = self.of.ofp_match(); m.unpack(bytes.fromhex(w), 0, flow_mod=True)
                         te = self.TableEntry(priority=prio, match=m, actions=[], now=0); ix[id(te)] = i
                         ft2.add_entry(te)
-                    te = ft2.entry_for_packet(self.parse(fr["frame"]), fr["port"])
+                    te = ft2.entry_for_packet(self.packet(fr["frame"]), fr["port"])
                     return None if te is None else ix.get(id(te), "foreign-object")
                 fresh = [alone(case["entries"], fr) for fr in case["frames"]]
                 if twin is not None:
@@ -774,7 +804,7 @@ class C03(Check):
             return {"order": order, "eff": eff, "exact": exact, "lookups": lookups, "rx": rx if sw else None, "phdrs": phs, "wfs": wfs, "codematch": codematch,
                     "fresh": fresh, "twin": twin, "twin_fresh": twin_fresh}
         if k == "selfflow":
-            e = self.parse(case["frame"])
+            e = self.packet(case["frame"])
             ph, wf = self.view(case["frame"])
             m = self.of.ofp_match.from_packet(e, case["port"], spec_frags=case["sf"])
             if case.get("rawmac"): m.dl_src = e.src.toRaw(); m.dl_dst = e.dst.toRaw()   # addresses given as raw bytes
@@ -821,7 +851,7 @@ class C03(Check):
                         clock = max(clock, op[1] / 1000.0)
                         ft.remove_expired_entries(op[1] / 1000.0) if (cv + n) % 2 else ft.remove_expired_entries(now=op[1] / 1000.0)
                     elif op[0] == "lookup":
-                        if op[1] not in pk: pk[op[1]] = self.parse(op[1])
+                        if op[1] not in pk: pk[op[1]] = self.packet(op[1])
                         e = pk[op[1]]
                         ph, wf = self.view(op[1])
                         pm = self.of.ofp_match.from_packet(self.parse(op[1]), op[2], spec_frags=True)
@@ -849,14 +879,114 @@ class C03(Check):
             return {"trace": trace, "looks": looks, "lookups": [t[1] for t in trace if t[0] == "l"]}
         raise ValueError(k)
 
+    # -- frames as the switch itself hands them to the table: after the rewrite actions of a packet_out that ends in output:OFPP_TABLE (frame
+    #    given as data, or the buffer id of an earlier packet-in), or as the packet OBJECT one switch emitted received by the next one.
+    #    case: {"kind":"resubmit","entries":[[priority, hex40]...],"steps":[{"frame":hex,"port":in_port,"acts":[[name, value]...],"via":"data"|"buffer"|"chain"|"rx"}...]}
+    #    What the looked-up frame IS is read off the bytes that leave the switch afterwards (every entry outputs to port 5; a miss sends a
+    #    packet-in with the whole frame): the actions' own semantics (C12's subject) are not presumed.
+    OUT_PORT = 5
+
+    def mk_action(self, a):
+        of = self.of; k, v = a[0], (a[1] if len(a) > 1 else None)
+        if k == "set_vlan_vid": return of.ofp_action_vlan_vid(vlan_vid=v)
+        if k == "set_vlan_pcp": return of.ofp_action_vlan_pcp(vlan_pcp=v)
+        if k == "strip_vlan": return of.ofp_action_strip_vlan()
+        if k == "set_dl_src": return of.ofp_action_dl_addr.set_src(self.EthAddr(bytes.fromhex(v)))
+        if k == "set_dl_dst": return of.ofp_action_dl_addr.set_dst(self.EthAddr(bytes.fromhex(v)))
+        if k == "set_nw_src": return of.ofp_action_nw_addr.set_src(self.IPAddr(struct.pack("!I", v)))
+        if k == "set_nw_dst": return of.ofp_action_nw_addr.set_dst(self.IPAddr(struct.pack("!I", v)))
+        if k == "set_nw_tos": return of.ofp_action_nw_tos(nw_tos=v)
+        if k == "set_tp_src": return of.ofp_action_tp_port.set_src(v)
+        if k == "set_tp_dst": return of.ofp_action_tp_port.set_dst(v)
+        raise ValueError(k)
+
+    def impl_resubmit(self, case):
+        of = self.of
+        cv = self._cv(case)
+        def switch():
+            sw = self.SoftwareSwitch(dpid=1, name="c03", ports=self.OUT_PORT); conn = self._Conn(); sw.set_connection(conn)
+            return sw, conn
+        def to_switch(conn, msg):                # over the wire: packed, unpacked into a fresh message object
+            raw = msg.pack(); m = type(msg)(); m.unpack(raw); conn.handler(conn, m)
+        sw, conn = switch()
+        to_switch(conn, of.ofp_set_config(miss_send_len=0xffff))
+        ents, idx = [], {}
+        for i, (prio, w) in enumerate(case["entries"]):
+            te = self._entry(prio, self._unpack(w, cv + i), 0, 0, 0, cv + i, cookie=i, out=self.OUT_PORT)
+            idx[id(te)] = i; ents.append(te)
+            sw.table.add_entry(te)
+        order = [idx.get(id(te), "foreign-object") for te in sw.table.entries]
+        eff = [te.effective_priority for te in sw.table.entries]
+        exact = [1 if te.match.is_exact else 0 for te in ents]
+        emitted = []
+        sw.addListener(self.DpPacketOut, lambda ev: emitted.append(ev.packet.pack()))          # serialised at the moment it leaves
+        up = None
+        steps = []
+        for n, st in enumerate(case["steps"]):
+            frame, port = bytes.fromhex(st["frame"]), st["port"]
+            acts = [self.mk_action(a) for a in st["acts"]]
+            before = [x.packet_count for x in ents]
+            del emitted[:]
+            start = len(conn.sent)
+            raised = None
+            try:
+                if st["via"] == "data":
+                    to_switch(conn, of.ofp_packet_out(in_port=port, data=frame, actions=acts + [of.ofp_action_output(port=of.OFPP_TABLE)]))
+                elif st["via"] == "buffer":
+                    to_switch(conn, of.ofp_packet_out(in_port=port, data=frame, actions=[of.ofp_action_output(port=of.OFPP_CONTROLLER, max_len=0xffff)]))
+                    pins = [r for r in conn.sent[start:] if len(r) >= 18 and r[1] == 10 and r[16] == 1]
+                    bid = be(pins[-1][8:12]) if pins else 0xffffffff
+                    start = len(conn.sent)
+                    to_switch(conn, of.ofp_packet_out(in_port=port, buffer_id=bid, actions=acts + [of.ofp_action_output(port=of.OFPP_TABLE)]))
+                elif st["via"] == "chain":            # rewritten and sent out by an upstream switch; its packet OBJECT is what this one receives
+                    if up is None:
+                        up = switch(); up[0].addListener(self.DpPacketOut, lambda ev: handed.append(ev.packet))
+                    handed = []
+                    to_switch(up[1], of.ofp_packet_out(in_port=port, data=frame, actions=acts + [of.ofp_action_output(port=self.OUT_PORT)]))
+                    for pk in handed[:1]: sw.rx_packet(pk, port)
+                elif st["via"] == "rx":               # no rewriting: the frame arrives (reference point of the family)
+                    sw.rx_packet(self.packet(st["frame"]), port, packet_data=frame)
+                else: raise ValueError(st["via"])
+            except Exception as ex:
+                raised = type(ex).__name__
+            hit = [i for i, x in enumerate(ents) if x.packet_count != before[i]]
+            used = hit[0] if len(hit) == 1 else (None if not hit else "many")
+            out = None
+            if len(emitted) == 1: out = emitted[0]
+            elif not emitted:
+                pins = [r for r in conn.sent[start:] if len(r) >= 18 and r[1] == 10 and r[16] == 0 and be(r[2:4]) == len(r)]
+                if len(pins) == 1 and be(pins[0][12:14]) == len(pins[0]) - 18: out = pins[0][18:]
+            rec = {"used": used, "raised": raised, "left": None if out is None else out.hex(), "n_out": len(emitted), "phdr": None, "wf": 0, "codematch": None}
+            if out is not None:
+                try:
+                    rec["phdr"], rec["wf"] = self.view(out.hex())
+                    pm = of.ofp_match.from_packet(self.parse(out.hex()), port, spec_frags=True)
+                    rec["codematch"] = [1 if te.match.matches_with_wildcards(pm, consider_other_wildcards=False) else 0 for te in ents]
+                except Exception:
+                    rec["phdr"], rec["wf"] = None, 0
+            steps.append(rec)
+        return {"order": order, "eff": eff, "exact": exact, "steps": steps, "lookups": [r["used"] for r in steps]}
+
     # ---------------------------------------------------------------- model side
     def model_request(self, case):
         r = self._model_request(case)
         if r is not None: r["v"] = self.variant
         return r
 
+    def model_request2(self, case, obs):
+        """resubmit: the model is given the frames the switch was SEEN to hand to its table (the bytes that left it), as a `table` request"""
+        if case["kind"] != "resubmit": return None
+        frames = []
+        self._resubmit_frames[self._cv(case)] = [(r["left"], st["port"]) for st, r in zip(case["steps"], obs["steps"]) if r["wf"] >= 2]
+        for st, r in zip(case["steps"], obs["steps"]):
+            if r["wf"] < 2: continue
+            mv = self.mview(r["left"])
+            frames.append(dict({"phdr": mv, "port": st["port"]}, **self.sview(r["left"], mv)))
+        return {"op": "table", "entries": [[p, unpack_rec(bytes.fromhex(w))] for p, w in case["entries"]], "frames": frames, "v": self.variant}
+
     def _model_request(self, case):
         k = case["kind"]
+        if k == "resubmit": return None
         if k == "pairs":
             ph = self.mview(case["frame"])
             sp = self.sview(case["frame"], ph)
@@ -908,6 +1038,62 @@ class C03(Check):
                 else: ops.append(list(op))
             return {"op": "tableops", "ops": ops, "sm": self.strict_both_ways}
 
+    # -- what OpenFlow 1.0 (3.4: "if multiple entries have the same priority, the switch is free to choose any ordering") and the property leave
+    #    open is taken out of BOTH sides of the model comparison: the table is compared as the sequence of its runs of equal effective priority
+    #    (order between runs exact, a run as a set), and a lookup that returned one of several matching entries of ONE rank as the smallest id
+    #    among them.  Everything else stays exact: another rank, a non-matching entry, a miss are never identified with anything.
+    @staticmethod
+    def _runs(ids, key):
+        out = []
+        for i in ids:
+            k = key(i) if isinstance(i, int) else "foreign"
+            if out and out[-1][0] == k and k != "foreign": out[-1][1].append(i)
+            else: out.append([k, [i]])
+        return [[k, sorted(g, key=lambda x: (isinstance(x, str), x))] for k, g in out]
+
+    @staticmethod
+    def _tie(got, present, rank, recs, ph, port):
+        """got, unless it is one of several present entries of its own rank that match the frame by the standard: then the smallest of those"""
+        if not isinstance(got, int) or isinstance(got, bool) or got not in rank: return got
+        peers = [i for i in present if isinstance(i, int) and i in rank and rank[i] == rank[got]]
+        if len(peers) < 2 or got not in peers: return got
+        h = spec_headers(ph, port)
+        T = [i for i in peers if spec_match(recs[i], h)]
+        return min(T) if got in T else got
+
+    def _canon_table(self, case, v, frames):
+        """frames: [(hexframe, port)] in the order of v["lookups"]"""
+        recs = {i: unpack_rec(bytes.fromhex(w)) for i, (_, w) in enumerate(case["entries"])}
+        rank = {i: spec_rank_sig(case["entries"][i][0], r) for i, r in recs.items()}
+        present = list(recs)
+        v = dict(v)
+        effs = dict(zip([x for x in v["order"]], v["eff"])) if len(v["order"]) == len(v["eff"]) else {}
+        v["order"] = self._runs(v["order"], lambda i: effs.get(i, "?"))
+        for kk in ("lookups", "rx"):
+            if kk in v and v[kk] is not None and len(v[kk]) == len(frames):
+                v[kk] = [self._tie(g, present, rank, recs, self.view(fr)[0], port) for g, (fr, port) in zip(v[kk], frames)]
+        return v
+
+    def _canon_trace(self, case, trace):
+        wire_of = {}
+        for op in case["ops"]:
+            if op[0] == "add": wire_of[op[1]] = wire_of[int(op[3][1:])] if op[3].startswith("@") else op[3]
+        recs = {op[1]: unpack_rec(bytes.fromhex(wire_of[op[1]])) for op in case["ops"] if op[0] == "add"}
+        rank = {op[1]: spec_rank_sig(op[2], recs[op[1]]) for op in case["ops"] if op[0] == "add"}
+        key = lambda i: rank.get(i, "?")
+        out, present = [], []
+        for op, t in zip(case["ops"], trace):
+            if t[0] == "t":
+                present = t[2]; out.append(["t", t[1], self._runs(t[2], key)])
+            elif t[0] == "q":
+                present = t[2]
+                ans = self._runs(t[3], key) if (op[1] == "entries" and isinstance(t[3], list)) else t[3]
+                out.append(["q", t[1], self._runs(t[2], key), ans])
+            elif t[0] == "l" and op[0] == "lookup":
+                out.append(["l", self._tie(t[1], present, rank, recs, self.view(op[1])[0], op[2])])
+            else: out.append(t)
+        return out + list(trace[len(out):])
+
     def impl_view(self, case, obs):
         k = case["kind"]
         if k == "pairs":
@@ -923,9 +1109,16 @@ class C03(Check):
             v = {"order": obs["order"], "eff": obs["eff"], "exact": obs["exact"], "lookups": obs["lookups"], "spec": spec,
                  "rank": [spec_rank_sig(p, r) for (p, _), r in zip(case["entries"], recs)]}
             if obs["rx"] is not None: v["rx"] = obs["rx"]
-            return v
+            return self._canon_table(case, v, [(fr["frame"], fr["port"]) for fr in case["frames"]])
         if k == "tableops":
-            return {"trace": obs["trace"]}
+            return {"trace": self._canon_trace(case, obs["trace"])}
+        if k == "resubmit":
+            recs = [unpack_rec(bytes.fromhex(w)) for _, w in case["entries"]]
+            done = [(st, r) for st, r in zip(case["steps"], obs["steps"]) if r["wf"] >= 2]
+            v = {"order": obs["order"], "eff": obs["eff"], "exact": obs["exact"], "lookups": [r["used"] for _, r in done],
+                 "spec": [[1 if spec_match(rr, spec_headers(r["phdr"], st["port"])) else 0 for rr in recs] for st, r in done],
+                 "rank": [spec_rank_sig(p, rr) for (p, _), rr in zip(case["entries"], recs)]}
+            return self._canon_table(case, v, [(r["left"], st["port"]) for st, r in done])
         if k == "selfflow":
             return {kk: obs[kk] for kk in ("m", "wire", "m2w", "hit", "exact")} | {"spec": 1 if spec_match(obs["wire"], spec_headers(obs["phdr"], case["swport"])) else 0}
 
@@ -943,9 +1136,12 @@ class C03(Check):
         if k == "table":
             v = {kk: resp[kk] for kk in ("order", "eff", "exact", "lookups", "spec", "rank")}
             if case.get("via_switch"): v["rx"] = resp["lookups"]
-            return v
+            return self._canon_table(case, v, [(fr["frame"], fr["port"]) for fr in case["frames"]])
         if k == "tableops":
-            return {"trace": [["q", t[1], t[2], self._q_answer(op, t[3])] if t[0] == "q" else t for op, t in zip(case["ops"], resp["trace"])]}
+            return {"trace": self._canon_trace(case, [["q", t[1], t[2], self._q_answer(op, t[3])] if t[0] == "q" else t for op, t in zip(case["ops"], resp["trace"])])}
+        if k == "resubmit":
+            v = {kk: resp[kk] for kk in ("order", "eff", "exact", "lookups", "spec", "rank")}
+            return self._canon_table(case, v, self._resubmit_frames.get(self._cv(case), []))
         if k == "selfflow":
             return {kk: resp[kk] for kk in ("m", "wire", "m2w", "hit", "exact", "spec")}
 
@@ -1014,6 +1210,18 @@ class C03(Check):
                         return "lookup:frame %d (lookup number %d on this table) returned entry %s, on a fresh copy of the table %s why=depends-on-earlier-lookups" % (
                             fi, fi + 1, got, obs["fresh"][fi])
                     return v
+            return None
+        if k == "resubmit":
+            recs = [unpack_rec(bytes.fromhex(w)) for _, w in case["entries"]]
+            flows = {i: (p, r) for i, ((p, _), r) in enumerate(zip(case["entries"], recs))}
+            for n, (st, r) in enumerate(zip(case["steps"], obs["steps"])):
+                where = "step %d (%s, actions %s)" % (n, st["via"], "+".join(a[0] for a in st["acts"]) or "none")
+                if r["raised"]: return "lookup:%s raised %s why=handing-the-frame-to-the-table-raised" % (where, r["raised"])
+                if r["left"] is None:
+                    return "lookup:%s the frame neither left through an entry's output (%d frames out) nor came back as a table-miss packet-in why=no-outcome" % (where, r["n_out"])
+                if r["wf"] < 2: continue
+                v = self._lookup_verdict(flows, r["used"], r["phdr"], st["port"], lambda i: r["codematch"][i], where)
+                if v: return v
             return None
         if k == "selfflow":
             if obs["wf"] < 2: return None
@@ -1137,6 +1345,8 @@ class C03(Check):
                 fr = op[1] if op is not None and op[0] == "lookup" else None
             if fr is not None and self.tcpopt_class(fr) and (head != "extract" or failure.split(":", 1)[1].startswith("tp_")):
                 return head + ":tcp-options-rejected"
+        if case["kind"] == "resubmit" and head == "lookup":
+            return "lookup-after-actions:" + (failure.rsplit("why=", 1)[1] if "why=" in failure else "unexplained")
         if head == "extract":
             name = failure.split(":", 1)[1].split(" ")[0].split("=")[0]
             ph = obs.get("phdr") or {}
@@ -1175,6 +1385,17 @@ class C03(Check):
                     continue                                                                    # keep ids that are referred to
                 c = dict(case); c["ops"] = case["ops"][:i] + case["ops"][i + 1:]
                 if any(o[0] == "lookup" for o in c["ops"]): yield c
+        if k == "resubmit":
+            if len(case["steps"]) > 1:
+                for i in range(len(case["steps"])):
+                    c = dict(case); c["steps"] = [case["steps"][i]]; yield c
+            for i in range(len(case["entries"])):
+                if len(case["entries"]) > 1:
+                    c = dict(case); c["entries"] = case["entries"][:i] + case["entries"][i + 1:]; yield c
+            if len(case["steps"]) == 1 and len(case["steps"][0]["acts"]) > 1:
+                st = case["steps"][0]
+                for i in range(len(st["acts"])):
+                    c = dict(case); c["steps"] = [dict(st, acts=st["acts"][:i] + st["acts"][i + 1:])]; yield c
         if k == "table":
             if len(case["frames"]) > 1:
                 for i in range(len(case["frames"])):
@@ -1370,6 +1591,8 @@ class C03(Check):
         cases += self.query_sandwich_cases()
         cases += self.sweep_pairs(rng)
         cases += self.byte_cases(rng)
+        cases += self.resubmit_corpus()
+        cases += self.built_cases(rng)
         for i in range(8):
             cases.append(self.tableops_case(rng, frames, nops=[4, 10, 25, 60][i % 4]))
         for fr in frames:
@@ -1491,6 +1714,30 @@ class C03(Check):
         for i in range(90 if tier == "quick" else 1500):    # the same with read-only calls between the steps, half of them on a switch's table
             yield self.tableops_case(rng, pool, nops=rng.choice([8, 20, 40, 90]), queries=rng.choice([0.15, 0.3, 0.5]), sw=(i % 2 == 0))
         for c in self.local_and_subsume(rng, pool, 40 if tier == "quick" else 1200): yield c
+        for c in self.resubmit_random(rng, pool, 120 if tier == "quick" else 2500): yield c
+        for c in self.built_cases(rng, [("random %d" % i, self.rand_desc(rng)) for i in range(40 if tier == "quick" else 600)]): yield c
+
+    def rand_desc(self, rng):
+        """a random frame description for `build_obj` (coherent: the type fields name the headers that follow)"""
+        d = copy.deepcopy(self.SEQ_BASES[rng.choice(sorted(self.SEQ_BASES))])
+        d["src"] = rng.choice([d["src"], 0x020000000001, rng.getrandbits(48) & 0xfeffffffffff]); d["dst"] = rng.choice([d["dst"], 0xffffffffffff, rng.getrandbits(48)])
+        w = rng.random()
+        if w < 0.35: d["vlan"] = [rng.choice([0, 1, 100, 4095, rng.randint(0, 4095)]), rng.choice([0, 0, 3, 7])]
+        elif w < 0.5: d["vlan"] = None
+        if d["vlan"] is not None and rng.random() < 0.15: d["vlan2"] = [rng.randint(0, 4095), rng.randint(0, 7)]
+        l3 = d["l3"]
+        if l3[0] == "ip":
+            l3[1], l3[2] = rng.choice([l3[1], 0, 0xffffffff, rng.getrandbits(32)]), rng.choice([l3[2], rng.getrandbits(32)])
+            l3[4] = rng.choice([0, 0x10, 0xb8, 0xfc]); l3[5] = rng.choice([0, 0, 0, 1, 2])
+            if l3[3] != 1: l3[6], l3[7] = rng.choice([0, 53, 32768, 65535, rng.randint(0, 65535)]), rng.choice([0, 80, 255, 256, 65535, rng.randint(0, 65535)])
+            else: l3[6], l3[7] = rng.choice([0, 3, 8, 11]), rng.choice([0, 1, 3])
+            if rng.random() < 0.1: l3[3] = rng.choice([0, 2, 47, 50, 89, 132, 255])
+        elif l3[0] == "arp":
+            l3[1] = rng.choice([1, 2, 3, 255, 256, 257, 0xffff]); l3[2], l3[3] = rng.getrandbits(32), rng.choice([l3[3], rng.getrandbits(32)])
+        else:
+            l3[1] = rng.choice([0x88b5, 0x86dd, 0x8035, 0x8847, 0x0600, 0xffff, 0x9100, 0x88a8])
+        if rng.random() < 0.15: d["enc"] = rng.choice(["snap", "snap", "snap_oui", "llc"])
+        return d
 
     def search_cases(self, rng, tier):
         return self.generate(rng, "quick")
@@ -1707,9 +1954,11 @@ class C03(Check):
         return cases
 
     # ---------------------------------------------------------------- sequences of lookups on one table
-    def build_frame(self, d):
-        """frame from a description {src,dst (ints), vlan: None|[id,pcp], l3: ["ip",src,dst,proto,tos,frag,a,b] | ["arp",op,spa,tpa] | ["other",ethertype]};
-        for proto 1 (a,b) = ICMP type/code, else ports; frag: 0 none, 1 first fragment (MF), 2 later fragment (offset 185).  Real packet library."""
+    def build_obj(self, d, _len=None):
+        """packet OBJECT from a description {src,dst (ints), vlan: None|[id,pcp], l3: ["ip",src,dst,proto,tos,frag,a,b] | ["arp",op,spa,tpa] | ["other",ethertype]};
+        for proto 1 (a,b) = ICMP type/code, else ports; frag: 0 none, 1 first fragment (MF), 2 later fragment (offset 185).  Optional: "vlan2": [id,pcp] a
+        second tag behind the first; "enc": "snap" (802.3 length + LLC/SNAP, OUI 0, carrying the EtherType) | "snap_oui" (SNAP of another organisation) |
+        "llc" (plain LLC).  Real packet library; nothing is serialised or parsed: every header object is constructed, `parsed` stays False."""
         P, IP, Eth = self.pkt, self.IPAddr, self.EthAddr
         l3 = d["l3"]
         if l3[0] == "ip":
@@ -1726,10 +1975,25 @@ class C03(Check):
                         protosrc=IP(l3[2].to_bytes(4, "big")), protodst=IP(l3[3].to_bytes(4, "big"))); typ = 0x0806
         else:
             pay = b"payload-" + bytes([l3[1] & 0xff]); typ = l3[1]
+        if d.get("vlan2") is not None:
+            v = P.vlan(id=d["vlan2"][0], pcp=d["vlan2"][1], eth_type=typ); v.payload = pay; pay = v; typ = 0x8100
         if d["vlan"] is not None:
             v = P.vlan(id=d["vlan"][0], pcp=d["vlan"][1], eth_type=typ); v.payload = pay; pay = v; typ = 0x8100
+        enc = d.get("enc")
+        if enc is not None:
+            if _len is None:                        # the 802.3 length field: measured on a twin, so that this object is never serialised
+                _len = len(self.build_obj(d, _len=0).pack()) - 14
+            if enc == "snap": l = P.llc(dsap=0xaa, ssap=0xaa, control=3, oui=b"\0\0\0", eth_type=typ)
+            elif enc == "snap_oui": l = P.llc(dsap=0xaa, ssap=0xaa, control=3, oui=b"\0\0\x0c", eth_type=typ)
+            elif enc == "llc": l = P.llc(dsap=0x42, ssap=0x42, control=3)
+            else: raise ValueError(enc)
+            l.payload = pay; pay = l; typ = _len
         e = P.ethernet(src=Eth(d["src"].to_bytes(6, "big")), dst=Eth(d["dst"].to_bytes(6, "big")), type=typ); e.payload = pay
-        return e.pack().hex()
+        return e
+
+    def build_frame(self, d):
+        """the bytes (hex) of the frame of description d: the hand-built object of `build_obj`, serialised"""
+        return self.build_obj(d).pack().hex()
 
     SEQ_BASES = {
         "tcp": {"src": 0x000000000011, "dst": 0x000000000022, "vlan": None, "l3": ["ip", 0x0a000001, 0x0a000002, 6, 0, 0, 4000, 80]},
@@ -1833,6 +2097,173 @@ class C03(Check):
                         if pa in (1, 2, 3, 4) and pb in (1, 2, 3, 4) and rng.random() < 0.15: c["via_switch"] = True
                         elif rng.random() < 0.3: c["twin"] = True
                         yield c
+
+    # ---------------------------------------------------------------- frames handed to the table after rewrite actions
+    @staticmethod
+    def gen_rewrite(b, acts):
+        """what OpenFlow 1.0 rewrite actions make of the header fields of frame `b` (checksums not maintained).  Used ONLY to aim table entries at the
+        frame the switch will probably look up; the oracle reads the looked-up frame off the bytes that leave the switch."""
+        b = bytes(b)
+        for a in acts:
+            k, v = a[0], (a[1] if len(a) > 1 else None)
+            tagged = len(b) >= 18 and be(b[12:14]) == 0x8100
+            o = 18 if tagged else 14
+            ip = len(b) >= o + 20 and be(b[o - 2:o]) == 0x0800 and b[o] >> 4 == 4 and (b[o] & 15) >= 5
+            if k in ("set_vlan_vid", "set_vlan_pcp"):
+                if not tagged: b = b[:12] + b"\x81\x00\x00\x00" + b[12:]
+                tci = be(b[14:16])
+                tci = (tci & 0xf000) | (v & 0xfff) if k == "set_vlan_vid" else (tci & 0x1fff) | ((v & 7) << 13)
+                b = b[:14] + struct.pack("!H", tci) + b[16:]
+            elif k == "strip_vlan":
+                if tagged: b = b[:12] + b[16:]
+            elif k == "set_dl_src": b = b[:6] + bytes.fromhex(v) + b[12:]
+            elif k == "set_dl_dst": b = bytes.fromhex(v) + b[6:]
+            elif k == "set_nw_src" and ip: b = b[:o + 12] + struct.pack("!I", v) + b[o + 16:]
+            elif k == "set_nw_dst" and ip: b = b[:o + 16] + struct.pack("!I", v) + b[o + 20:]
+            elif k == "set_nw_tos" and ip: b = b[:o + 1] + bytes([(v & 0xfc) | (b[o + 1] & 3)]) + b[o + 2:]
+            elif k in ("set_tp_src", "set_tp_dst") and ip:
+                l4 = o + (b[o] & 15) * 4
+                if b[o + 9] in (6, 17) and be(b[o + 6:o + 8]) & 0x3fff == 0 and len(b) >= l4 + 4:
+                    q = l4 + (0 if k == "set_tp_src" else 2)
+                    b = b[:q] + struct.pack("!H", v) + b[q + 2:]
+        return b
+
+    ACTION_LISTS = [
+        [], [["set_vlan_vid", 5]], [["set_vlan_vid", 0]], [["set_vlan_vid", 4095]], [["set_vlan_vid", 0x1005]], [["set_vlan_pcp", 0]], [["set_vlan_pcp", 3]], [["set_vlan_pcp", 7]],
+        [["strip_vlan"]], [["set_dl_src", "020000000099"]], [["set_dl_dst", "ffffffffffff"]], [["set_nw_src", 0xc0a80101]], [["set_nw_dst", 0x0a000063]],
+        [["set_nw_tos", 0xb8]], [["set_nw_tos", 0x20]], [["set_tp_src", 53]], [["set_tp_dst", 65535]], [["set_tp_dst", 0]],
+        [["set_vlan_vid", 100], ["set_vlan_pcp", 6]], [["set_vlan_pcp", 2], ["set_vlan_vid", 7]], [["strip_vlan"], ["set_vlan_vid", 9]], [["set_vlan_pcp", 1], ["strip_vlan"]],
+        [["set_vlan_vid", 8], ["strip_vlan"], ["set_vlan_pcp", 4]], [["set_vlan_vid", 12], ["set_nw_dst", 0x0a000063], ["set_tp_dst", 8080]],
+        [["set_dl_src", "020000000099"], ["set_vlan_pcp", 5], ["set_nw_tos", 0x48]], [["strip_vlan"], ["strip_vlan"]],
+    ]
+    RESUBMIT_BASES = ["tcp", "udp", "icmp", "arp", "other", "vlan_udp", "vlan_arp", "zero_udp", "max_udp", "mid_tcp", "frag_udp"]
+
+    def resubmit_case(self, rng, fr, port, acts, vias, extra=6, tag=None):
+        """one frame, one action list, handed to the table in each of the `vias`; entries aimed at the frame before AND after the rewrite, on the
+        fields the rewrite changes (different priorities, so that taking the frame for the unrewritten one — or for something in between, e.g. an
+        untagged frame of type 0x8100 — returns another entry), on dl_vlan / dl_type / the addresses behind a tag, an exact entry, sometimes a catch-all"""
+        b1 = bytes.fromhex(fr); b2 = self.gen_rewrite(b1, acts)
+        ph1, wf1, h1 = self.headers_of(fr, port)
+        ph2, wf2, h2 = self.headers_of(b2.hex(), port)
+        changed = [f for f in range(1, 13) if h1[f - 1] != h2[f - 1]]
+        flag = lambda fs: [f for f in fs if f in FLAG_FIELDS or f in (NW_SRC, NW_DST)]
+        ents = []
+        def add(p, r):
+            if self.trigger(r, ph1) is None and self.trigger(r, ph2) is None: ents.append([p, pack_rec(r).hex()])
+        add(300, self.only_field_rec(h2, flag(changed) or [DL_TYPE]))
+        add(200, self.only_field_rec(h1, flag(changed) or [DL_TYPE]))
+        add(250, self.only_field_rec(h2, [DL_VLAN])); add(240, self.only_field_rec(h1, [DL_VLAN]))
+        add(260, self.only_field_rec(h2, [DL_VLAN, PCP, DL_TYPE]))
+        l3f = [DL_TYPE, NW_DST] if h2[DL_TYPE - 1] in (0x0800, 0x0806) else [DL_TYPE]
+        add(270, self.only_field_rec(h2, l3f))
+        if h2[DL_TYPE - 1] == 0x0800 and h2[PROTO - 1] in (1, 6, 17):
+            add(280, self.only_field_rec(h2, [TP_SRC, TP_DST])); add(5, [0] + list(h2))
+        add(230, self.only_field_rec([h1[0], h1[1], h1[2], 0xffff, 0, 0x8100] + [0] * 6, [DL_VLAN, DL_TYPE]))          # an untagged frame of type 0x8100
+        for _ in range(extra):
+            h, ph = (h2, ph2) if rng.random() < 0.7 else (h1, ph1)
+            r = self.rand_rec(rng, h, ph)
+            if spec_exact_sig(r) and not (r[DL_TYPE] == 0x0800 and r[PROTO] in (1, 6, 17) and spec_exact(r)): continue
+            add(rng.choice([1, 100, 255, 256, 290, 0x8000, rng.randint(0, 400)]), r)
+        if rng.random() < 0.5: add(1, self.only_field_rec(h2, []))
+        rng.shuffle(ents)
+        c = {"kind": "resubmit", "entries": ents, "steps": [{"frame": fr, "port": port, "acts": acts, "via": v} for v in vias]}
+        if tag: c["tag"] = tag
+        return c
+
+    def resubmit_corpus(self):
+        """every rewrite action (and short lists of them) on untagged / tagged / priority-tagged frames of every L3 kind, handed to the table with the
+        frame as data, by buffer id, and as the packet object an upstream switch emitted"""
+        import random
+        rng = random.Random(29)
+        out = []
+        for bi, bname in enumerate(self.RESUBMIT_BASES):
+            fr = self.build_frame(self.SEQ_BASES[bname])
+            for ai, acts in enumerate(self.ACTION_LISTS):
+                port = [1, 2, 3, 4, 0xfffd, 0xffff, 0][(bi + ai) % 7]
+                vias = ["data", "buffer"] + (["chain", "rx"] if port in (1, 2, 3, 4) else [])
+                out.append(self.resubmit_case(rng, fr, port, acts, vias, extra=3, tag="resubmit %s %s" % (bname, "+".join(a[0] for a in acts) or "none")))
+        return out
+
+    def rand_actions(self, rng):
+        mac = lambda: "%012x" % rng.choice([0x11, 0x22, 0x020000000099, 0xffffffffffff, 0, rng.getrandbits(48)])
+        ip = lambda: rng.choice([0x0a000001, 0x0a000002, 0xc0a80101, 0, 0xffffffff, rng.getrandbits(32)])
+        port = lambda: rng.choice([0, 53, 80, 4000, 32768, 65535, rng.randint(0, 65535)])
+        mk = {"set_vlan_vid": lambda: rng.choice([0, 1, 5, 100, 4095, 0x1005, 0xffff]), "set_vlan_pcp": lambda: rng.choice([0, 1, 3, 7, 8, 0xff]),
+              "strip_vlan": None, "set_dl_src": mac, "set_dl_dst": mac, "set_nw_src": ip, "set_nw_dst": ip, "set_nw_tos": lambda: rng.choice([0, 0x20, 0xb8, 0xfc]),
+              "set_tp_src": port, "set_tp_dst": port}
+        names = sorted(mk)
+        acts = []
+        for _ in range(rng.choice([1, 1, 1, 2, 2, 3, 4])):
+            k = rng.choice(names + ["set_vlan_vid", "set_vlan_pcp", "strip_vlan"])
+            acts.append([k] if mk[k] is None else [k, mk[k]()])
+        return acts
+
+    def resubmit_random(self, rng, pool, n):
+        done = 0
+        for _ in range(n * 4):
+            if done >= n: break
+            fr = rng.choice(pool); port = rng.choice([1, 2, 3, 4, 1, 2, 0xfffd, 0xffff, 0xfffe, 0])
+            ph, wf, h = self.headers_of(fr, port)
+            if wf < 2 or self.trigger([0] * 13, ph) is not None: continue
+            acts = self.rand_actions(rng)
+            ph2, wf2, _ = self.headers_of(self.gen_rewrite(bytes.fromhex(fr), acts).hex(), port)
+            if wf2 < 2 or self.trigger([0] * 13, ph2) is not None: continue
+            vias = [v for v in ("data", "buffer", "chain", "rx") if (v in ("data", "buffer") or port in (1, 2, 3, 4)) and rng.random() < 0.6] or ["data"]
+            yield self.resubmit_case(rng, fr, port, acts, vias, extra=rng.choice([2, 6, 12]))
+            done += 1
+
+    # ---------------------------------------------------------------- packet objects built by hand (never serialised, never parsed)
+    def built_descs(self):
+        out = [(n, self.SEQ_BASES[n]) for n in sorted(self.SEQ_BASES)]
+        B = self.SEQ_BASES
+        out += [("snap_" + n, dict(copy.deepcopy(B[n]), enc="snap")) for n in ("tcp", "udp", "icmp", "arp", "other", "vlan_udp")]
+        out += [("snap_oui", dict(copy.deepcopy(B["other"]), enc="snap_oui")), ("llc", dict(copy.deepcopy(B["other"]), enc="llc"))]
+        out += [("qinq_" + n, dict(copy.deepcopy(B[n]), vlan2=[77, 2])) for n in ("vlan_udp", "vlan_arp")]
+        d = copy.deepcopy(B["tcp"]); d["l3"][5] = 1; out.append(("frag_first_tcp", d))
+        d = copy.deepcopy(B["vlan_udp"]); d["l3"][5] = 2; out.append(("vlan_frag_udp", d))
+        d = copy.deepcopy(B["udp"]); d["l3"][3] = 47; out.append(("gre", d))
+        d = copy.deepcopy(B["arp"]); d["l3"][1] = 0x0102; out.append(("arp_op258", d))
+        d = copy.deepcopy(B["other"]); d["l3"][1] = 0x86dd; out.append(("v6type", d))
+        d = copy.deepcopy(B["other"]); d["l3"][1] = 0x8035; out.append(("rarptype", d))
+        return out
+
+    def built_cases(self, rng, descs=None):
+        """from_packet / entry_for_packet / rx_packet given packet objects that were CONSTRUCTED with the packet library's classes, one per header class
+        and encapsulation: held to the standard's reading of the bytes the object serialises to (the model gets those bytes)"""
+        cases = []
+        disc = [DL_TYPE, DL_VLAN, PCP, PROTO, NW_SRC, NW_DST, TP_SRC, TP_DST, TOS, DL_SRC]
+        for n, (name, d) in enumerate(descs or self.built_descs()):
+            try: fr = self.build_frame(d)
+            except Exception: continue
+            port = 1 + n % 4
+            ph, wf, h = self.headers_of(fr, port)
+            if self.trigger([0] * 13, ph) is not None: continue
+            built = {fr: d}
+            recs = [self.near_rec(rng, h, ph, [], 0, 0), self.only_field_rec(h, [])]
+            for f in disc:
+                r = self.only_field_rec(h, [f]); recs.append(r)
+                r2 = list(r); r2[f] = (r2[f] + 1) & FIELD_MAX[f]; recs.append(r2)
+            recs.append(self.only_field_rec(h, [DL_VLAN, DL_TYPE]))
+            for c in self.batches(fr, port, recs, ph, tag="built " + name):
+                c.pop("via_packet_in", None); c["built"] = built; cases.append(c)
+            cases.append({"kind": "selfflow", "frame": fr, "port": port, "swport": port, "sf": True, "tag": "built " + name, "built": built})
+            if wf < 2: continue
+            ents = [[100, pack_rec(self.only_field_rec(h, [DL_TYPE, DL_VLAN])).hex()], [90, pack_rec(self.only_field_rec(h, [DL_VLAN])).hex()],
+                    [80, pack_rec(self.only_field_rec(h, [DL_TYPE, NW_DST] if h[DL_TYPE - 1] in (0x0800, 0x0806) else [DL_TYPE])).hex()],
+                    [70, pack_rec(self.only_field_rec([h[0], h[1], h[2], 0xffff, 0, 0x8100] + [0] * 6, [DL_VLAN, DL_TYPE])).hex()],
+                    [60, pack_rec(self.only_field_rec(h, [DL_SRC])).hex()]]
+            if h[DL_TYPE - 1] == 0x0800 and h[PROTO - 1] in (1, 6, 17):
+                ents += [[120, pack_rec(self.only_field_rec(h, [TP_SRC, TP_DST])).hex()], [5, pack_rec([0] + list(h)).hex()]]
+            ents = [e for e in ents if self.trigger(unpack_rec(bytes.fromhex(e[1])), ph) is None]
+            if n % 2: ents.reverse()
+            c = {"kind": "table", "entries": ents, "frames": [{"frame": fr, "port": port}] * 2, "seq": True, "tag": "built " + name, "built": built}
+            if n % 3 != 2: c["via_switch"] = True
+            cases.append(c)
+            ops = [["add", j, p, w, 0, 0, 1000] for j, (p, w) in enumerate(ents)] + [["lookup", fr, port], ["rm_match", ents[0][1], ents[0][0], True], ["lookup", fr, port]]
+            c = {"kind": "tableops", "ops": ops, "tag": "built " + name, "built": built}
+            if n % 2 == 0: c["sw"] = True
+            cases.append(c)
+        return cases
 
     def sandwich_cases(self):
         """lookup F / one table operation that must change the answer for F / lookup F again — for every kind of operation — and the sweep
